@@ -176,6 +176,33 @@ def lazylist_methods(chk, repo):
                     out.append(n)
         return out
 
+    # the constructor wraps its source without looking into it
+    init = methods.get("__init__")
+    if init is None or len(init.args.args) < 2:
+        raise AnalysisError("anchor vanished: LazyList.__init__(self, source)")
+    src = init.args.args[1].arg
+    lv = LazyViews(init, src, {})
+    # self.raw_object aliases the source inside the constructor
+    bad_sites = [s_ for s_ in lv.sites()
+                 if not excluded_by_guard(s_.node, init, src)]
+    for n in ast.walk(init):
+        if isinstance(n, ast.Call):
+            d = dotted(n.func) or ""
+            if d in ("len", "list", "tuple", "sorted", "sum", "max", "min",
+                     "set") and n.args and (dotted(n.args[0]) or "") == \
+                    "self.raw_object":
+                bad_sites.append(type("S", (), {
+                    "desc": ast.unparse(n)[:40], "line": n.lineno,
+                    "how": "eager builtin on the source iterator"})())
+    chk.ob("C14.constructor-does-not-consume", "LazyList.__init__",
+           not bad_sites,
+           "wrapping a source consumes it ("
+           + (f"`{bad_sites[0].desc}`: {bad_sites[0].how}" if bad_sites
+              else "") + "): LazyList(<infinite lazy list>) - cumulative "
+           "sums, wrapping a generator - never returns", F,
+           bad_sites[0].line if bad_sites else init.lineno,
+           witness="Þ∞ ¦ (cumulative sums of an infinite list), first item",
+           sample={"source parameter": src})
     # __iter__, __next__, has_ind, __bool__: never force
     for name in ("__iter__", "__next__", "has_ind", "__bool__"):
         fn = methods.get(name)
@@ -191,9 +218,10 @@ def lazylist_methods(chk, repo):
     # has_ind pulls exactly the missing items
     hi = methods["has_ind"]
     loops = [n for n in ast.walk(hi) if isinstance(n, ast.For)]
+    from ..flow import copy_env, subst
     ok = len(loops) == 1 and isinstance(loops[0].iter, ast.Call) and dotted(
         loops[0].iter.func) == "range" and "len(self.generated)" in \
-        ast.unparse(loops[0].iter) and not any(
+        ast.unparse(subst(loops[0].iter, copy_env(hi))) and not any(
         isinstance(n, ast.While) for n in ast.walk(hi))
     chk.ob("C14.has-ind-bounded", "LazyList.has_ind", ok,
            "has_ind must pull at most ind - len(generated) + 1 items (one "
